@@ -201,6 +201,7 @@ pub fn run(ctx: &Ctx, rec: &mut Rec) {
             let mut members: Vec<(&'static str, El, crate::model::Pt)> = fam.into_iter().map(|(nm, e)| (nm, e, p.m.clone())).collect();
             members.push(("Q", q.l, q.m.clone()));
             members.push(("-P", -p.l, c.neg(&p.m)));
+            members.push(("other representative of -P (hook)", from_pt(c, &c.torque(&c.neg(&p.m))), c.neg(&p.m)));
             members.push(("P+G", p.l + El::GENERATOR, c.add(&p.m, &ctx.g)));
             check_pairs(ctx, rec, &members);
             // ---- identity family and predicates
@@ -304,6 +305,13 @@ fn check_pairs(ctx: &Ctx, rec: &mut Rec, members: &[(&'static str, El, crate::mo
                 }
             };
             rec.form("Element ==");
+            rec.form("Element !=");
+            {
+                let (ne1, ne2, eq2) = guarded(|| (la != lb, lb != la, lb == la)).unwrap_or((!leq, !leq, leq));
+                if ne1 == leq || ne2 == leq || eq2 != leq {
+                    rec.violation(format!("{P}:ne-vs-eq"), format!("`{}` vs `{}`: == is {leq}, reversed == is {eq2}, != is {ne1}, reversed != is {ne2}", a.0, bb.0), json!({"a": el_json(&a.1), "b": el_json(&bb.1)}));
+                }
+            }
             let beq = encs[i] == encs[j];
             if leq != beq {
                 rec.violation(format!("{P}:eq-vs-encoding"), format!("`{}` == `{}` is {leq} but encodings-equal is {beq}", a.0, bb.0), json!({"a": el_json(&a.1), "b": el_json(&bb.1), "enc_a": hex::encode(encs[i]), "enc_b": hex::encode(encs[j])}));
@@ -318,6 +326,13 @@ fn check_pairs(ctx: &Ctx, rec: &mut Rec, members: &[(&'static str, El, crate::mo
                 rec.form("Hash for Element");
                 rec.form("Hash for AffinePoint");
                 let aeq = guarded(|| aa == ab).unwrap_or(!meq);
+                rec.form("AffinePoint !=");
+                {
+                    let (ne1, ne2) = guarded(|| (aa != ab, ab.ne(&aa))).unwrap_or((!aeq, !aeq));
+                    if ne1 == aeq || ne2 == aeq {
+                        rec.violation(format!("{P}:affine-ne-vs-eq"), format!("AffinePoint `{}` vs `{}`: == is {aeq}, != is {ne1}, reversed ne() is {ne2}", a.0, bb.0), json!({"a": el_json(&a.1), "b": el_json(&bb.1)}));
+                    }
+                }
                 if aeq != meq {
                     rec.violation(format!("{P}:affine-eq-vs-model"), format!("AffinePoint `{}` == `{}` is {aeq} but the model says {meq}", a.0, bb.0), json!({"a": el_json(&a.1), "b": el_json(&bb.1)}));
                 }
